@@ -163,6 +163,8 @@ def app_program(req: Dict[str, Any]) -> list:
         headers.insert(len(headers) // 2, ["content-length", str(len(body_of(spec)))])
     start = {"type": "http.response.start", "status": spec["status"], "headers": headers,
              "$headers_as": spec.get("headers_as", "list")}
+    if not headers and spec.get("headers_as") == "map":
+        del start["headers"]  # the key is optional: an application with no headers may omit it
     prog: list = [["recv_all"]]
     if spec["hints"]:
         prog.append(["send_if_ext", "http.response.early_hint",
